@@ -483,17 +483,11 @@ def check_solve(res, sc):
         early = [ix for m0, ix in rel if m0 < n0 and set(ix) & comp]
         other = [ix for m0, ix in rel if m0 == n0 and ix != idx and set(ix) & comp and src[(m0, ix)] != src[(n0, idx)]]
         if early:
-            # whole groups joined: everything that constrained these parameters before is a tie, and the collapse ties
-            # every member of one earlier group to every member of the other (e.g. a new parameter c joining the
-            # collapsed pair (a,b) through (a,c) and (b,c)): earlier and new relations then ask for the same thing
-            old = [(i, j) for m0, i, j in tied if m0 < n0]
-            now = {frozenset((i, j)) for m0, i, j in tied if m0 == n0 and src[(m0, (i, j))] == src[(n0, idx)]}
-            whole = len(idx) == 2 and not other and all(len(ix) == 2 for ix in early)
-            for p in (now if whole else ()):
-                a, b = sorted(p)
-                if a in comp:
-                    ga, gb = _closure((a,), old), _closure((b,), old)
-                    whole = whole and (b in ga or all(frozenset((u, v)) in now for u in ga for v in gb))
+            # whole groups joined: everything that constrained these parameters before is a tie, and the pairs of this one
+            # collapse by themselves connect every parameter those earlier ties reach (e.g. a new parameter c joining the
+            # collapsed pair (a,b) through (a,c) and (b,c)): the earlier relations then ask for nothing different
+            now = [(i, j) for m0, i, j in tied if m0 == n0 and src[(m0, (i, j))] == src[(n0, idx)]]
+            whole = len(idx) == 2 and not other and all(len(ix) == 2 for ix in early) and _closure(idx, now) == comp
             if whole:
                 joins.add(n0)
                 return '#whole-group-join'
@@ -549,6 +543,38 @@ def gen_solves(rng, n):
     return out
 
 
+def gen_ties(rng, n):
+    """separable quadratics whose optimum holds clusters of values 0.8*tol apart, members in arbitrary index order:
+    offsets k in {0,1,2} steps -> (0,1) and (1,2) are within the tolerance, (0,2) is not (non-transitive when the middle
+    value has the highest index); unequal curvatures make coordinates converge, and so collapse, at different moments"""
+    out = []
+    for k in range(n):
+        s = ('NM', 'Powell', 'NM', 'DE1', 'NM', 'Powell', 'DE2', 'NM')[k % 8]
+        fast = s == 'Powell'
+        nd = rng.choice([4, 5, 6])
+        tol = rng.choice([1e-2, 5e-2] if fast else [1e-3, 1e-2, 5e-2])
+        bases = rng.sample(range(-4, 5), nd)
+        opt = []
+        while len(opt) < nd:
+            base = bases[len(opt)] * 0.5
+            size = min(rng.choice([1, 2, 3, 3, 4]), nd - len(opt))
+            mode = rng.choice(['equal', 'steps', 'steps', 'between'])
+            ks = {'equal': [0] * size, 'steps': [rng.randrange(3) for _ in range(size)],
+                  'between': ([0, 2] + [1] * size)[:size]}[mode]
+            opt += [base + 0.8 * tol * q for q in ks]
+        order = list(range(nd))
+        if rng.random() < 0.7:
+            rng.shuffle(order)
+        opt = [opt[i] for i in order]
+        start = rng.choice(['near', 'near', 'far'])
+        r = 0.3 * tol if start == 'near' else 0.5
+        out.append({'kind': 'solve', 'solver': s, 'obj': 'quad', 'term': ['as', False], 'seed': rng.randrange(10 ** 6), 'tol': tol,
+                    'g': rng.choice([1, 2] if fast else [5, 10, 20]), 'opt': opt, 'w': [rng.choice([1.0, 1.0, 4.0, 0.25]) for _ in opt],
+                    'start': start, 'x0': [v + rng.uniform(-r, r) for v in opt], 'box': [[v - r for v in opt], [v + r for v in opt]],
+                    'cog': 60, 'maxgen': 400, 'guard': 30})
+    return out
+
+
 # ----------------------------------------------------------------------------- driver
 def work(c):
     res = Result('', '')
@@ -566,12 +592,13 @@ def chunk(cs):
 
 def run(tier='quick', seed=0):
     rng = random.Random(seed)
-    nd, nc, ns = (2500, 500, 96) if tier == 'quick' else (60000, 10000, 2000)
+    nd, nc, ns, nt = (2500, 500, 96, 320) if tier == 'quick' else (60000, 10000, 2000, 6000)
     cases = [gen_case(rng, k) for k in ('at', 'as', 'weight', 'position') for _ in range(nd)]
     # collapse_cost (collapse of *bounds*) is not among the detectors of the C11 statement (parameters, pairs,
     # measure weights/positions): it is not demanded here (a defect in it was observed, see DESIGN section 5, O5)
     nc = 0
     solves = gen_solves(rng, ns)
+    solves += gen_ties(rng, nt)
     res = Result(rule='detectors: %d seeded cases per detector (monitor of 3..14 records x 2..5 columns or a product-measure '
                  'layout npts in {(2,2),(3,3),(2,2,2),(3,)}; tolerance in %r; window 1..len; mask None/set/dict/'
                  'where drawn from the true collapse set and its complement, pairs in either order); distinct = (detector, '
